@@ -553,6 +553,67 @@ def r16_5(ctx, rc):
                      prog.loc(W, it), key=key)
 
 
+def r16_6(ctx, rc):
+    """The serialiser visits every suboperation of a complex record, and the
+    non-root set of write() is built from every registered operation."""
+    from .apply_rules import subtree_walk_rule
+    C = ctx.R.cache
+    S = ctx.E.func(C + '._complex_operation_to_json')
+    ser = C + '._operation_to_json'
+    sg_visit = lambda x: Q.is_call(x, ser)
+    # every suboperation (simple ones included) is serialised: the loop body
+    # has no path that skips the call at all
+    sg = ctx.E.super(S, lambda g: False)
+    loops = [x for x in sg.nodes if x.kind == 'out' and
+             x.cn.kind == 'for_next']
+    if not loops:
+        raise AnalysisError('serialiser does not iterate suboperations')
+    lp = loops[0]
+    body = [d for d, l in lp.succ if isinstance(l, tuple) and l[0] == 'iter']
+    seen = sg.reach(body, avoid=sg_visit)
+    back = [n for n in seen if sg.nodes[n].kind == 'in' and
+            sg.nodes[n].cn is lp.cn]
+    key = 'every suboperation is serialised'
+    if back:
+        rc.violation('suboperation-not-written | ' + S.qualname,
+                     'the serialiser can skip a suboperation of a record '
+                     '(the observation is lost from the cache file and never '
+                     'replayed)', lp.where(), key=key)
+    else:
+        rc.ok({'loop': 'for suboperation in operation.suboperations'},
+              key=key)
+    W = ctx.E.func(C + '.write')
+    fors = [n for n in ast.walk(W.node) if isinstance(n, ast.For)]
+    key = 'non-root set covers every registered operation'
+    upd = None
+    ser_loop = None
+    for lp2 in fors:
+        for c in ast.walk(lp2):
+            if isinstance(c, ast.Call) and isinstance(
+                    c.func, ast.Attribute) and c.func.attr in (
+                        'update', 'add', 'extend') and c.args and isinstance(
+                            c.args[0], ast.Attribute) and \
+                    c.args[0].attr == 'suboperations':
+                upd = lp2
+            if isinstance(c, ast.Call) and any(
+                    isinstance(g, Func) and g.qualname == ser
+                    for g in ctx.prog.resolve_call(c, W)):
+                ser_loop = lp2
+    ok = upd is not None and ser_loop is not None and \
+        ast.dump(upd.iter) == ast.dump(ser_loop.iter) and not any(
+            isinstance(x, (ast.If, ast.Break, ast.Continue))
+            for x in ast.walk(ast.Module(body=upd.body, type_ignores=[])))
+    if ok:
+        rc.ok({'non_root_from': ast.unparse(upd.iter)}, key=key)
+    else:
+        rc.violation('non-root-set | ' + W.qualname,
+                     'the set of nested (non-root) operations is not built '
+                     'unconditionally from the suboperations of every '
+                     'operation that is later considered for writing: a '
+                     'nested record would be written twice, or a root '
+                     'dropped', W.file, key=key)
+
+
 RULES = [
     ('R16.1', 'record fields survive write/read (attribute<->key<->param)',
      r16_1),
@@ -561,4 +622,6 @@ RULES = [
     ('R16.4', 'when the cache file is replaced; failed write compensated',
      r16_4),
     ('R16.5', 'write() serialises every root operation', r16_5),
+    ('R16.6', 'every suboperation is serialised; non-root set is complete',
+     r16_6),
 ]
